@@ -92,8 +92,8 @@ def _context_renamer_factory(
 
     def _process_logic(self, **kwargs):
         """Rename the resolved 'original_key' value to 'destination_key'."""
-        value = kwargs.get(original_key)
-        if value is not None:
+        if original_key in kwargs:
+            value = kwargs[original_key]
             self._notify_context_update(destination_key, value)
             self._notify_context_deletion(original_key)
             self.logger.debug(
@@ -142,8 +142,7 @@ def _context_deleter_factory(key: str) -> type[ContextProcessor]:
     def _process_logic(self, **kwargs):
         """Delete key 'key' from context via the observer."""
         # The key should be available in resolved parameters if it exists
-        value = kwargs.get(key)
-        if value is not None:
+        if key in kwargs:
             self._notify_context_deletion(key)
             self.logger.debug(f"Deleted context key '{key}'")
         else:
